@@ -281,33 +281,58 @@ def validate_collect(spec, cfg, files, scratch, timeout=3000, heap="3g", max_bad
     # is validated without it.  Any other TLC failure is a broken check.
     queue = list(results)
     rounds = 0
+    unjudged_batches = 0
+
+    def unjudgeable(f, k, line):
+        try:
+            ev = json.loads(line)
+        except ValueError:
+            ev = {"raw": line[:500]}
+        if isinstance(ev, dict):
+            ev = dict(ev, _unjudgeable="evaluating the specification on this event overflows TLC's integers: a recorded value is far outside the exact domain of the expectations")
+        bad.append((f, k, ev))
+
     while queue:
         f, acc, r = queue.pop(0)
-        if not acc and "Overflow when computing" in (r.error or "") + r.out and rounds < 60:
+        if not acc and "Overflow when computing" in (r.error or "") + r.out:
             rounds += 1
-            states = [int(x) for x in re.findall(r"^l = (\d+)$", r.out, re.M)]
-            k = max(states) if states else 1                      # the event being judged when the evaluation failed
+            if rounds > (12 if bad else 80):
+                # enough isolated: with rejected events already in hand the verdict stands; what is left is only counted
+                if bad:
+                    unjudged_batches += 1
+                    continue
+                raise Broken("trace validation: more than 80 overflowing batches and no judgeable rejection: %s" % f)
             with open(f) as fh:
                 lines = fh.readlines()
+            if len(lines) <= 1:
+                unjudgeable(f, 1, lines[0] if lines else "")
+                continue
+            states = [int(x) for x in re.findall(r"^l = (\d+)$", r.out, re.M)]
+            k = max(states) if states else 0                      # the event being judged when the evaluation failed
+            pinned = False
             if 1 <= k <= len(lines):
-                one = scratch.path("ovf-%d-%s" % (rounds, os.path.basename(f)))
+                one = scratch.path("ovf-%d-%s" % (rounds, os.path.basename(f))[:120])
                 with open(one, "w") as fo:
                     fo.write(lines[k - 1])
                 (f1, acc1, r1), = validate_traces(spec, cfg, [one], scratch, timeout=timeout, heap=heap)
                 if not acc1 and "Overflow when computing" in (r1.error or "") + r1.out:
-                    try:
-                        ev = json.loads(lines[k - 1])
-                    except ValueError:
-                        ev = {"raw": lines[k - 1][:500]}
-                    if isinstance(ev, dict):
-                        ev = dict(ev, _unjudgeable="evaluating the specification on this event overflows TLC's integers: a recorded value is far outside the exact domain of the expectations")
-                    bad.append((f, k, ev))
-                    rest = scratch.path("rest-%d-%s" % (rounds, os.path.basename(f)))
+                    unjudgeable(f, k, lines[k - 1])
+                    rest = scratch.path("rest-%d-%s" % (rounds, os.path.basename(f))[:120])
                     with open(rest, "w") as fo:
                         fo.writelines(lines[:k - 1] + lines[k:])
-                    if len(lines) > 1:
-                        queue += validate_traces(spec, cfg, [rest], scratch, timeout=timeout, heap=heap)
-                    continue
+                    queue += validate_traces(spec, cfg, [rest], scratch, timeout=timeout, heap=heap)
+                    pinned = True
+            if not pinned:
+                # the position could not be read off TLC's report: halve the batch
+                h = len(lines) // 2
+                parts = []
+                for tag, chunk in (("a", lines[:h]), ("b", lines[h:])):
+                    pth = scratch.path("half-%d%s-%s" % (rounds, tag, os.path.basename(f))[:120])
+                    with open(pth, "w") as fo:
+                        fo.writelines(chunk)
+                    parts.append(pth)
+                queue += validate_traces(spec, cfg, parts, scratch, timeout=timeout, heap=heap)
+            continue
         if not acc:
             raise Broken("trace validation failed to run on %s: %s\n%s" % (f, r.error or r.violation, r.out[-1500:]))
         idx = sorted(set(int(x) for x in re.findall(r'"TRACE-BAD", (\d+)', r.out)))
